@@ -76,8 +76,8 @@ def check(chk: Check) -> None:
             acc[name] = (tab[name].target, 0, 1)
     if 'get' in tab and tab['get'].kind == 'fn':
         acc['get'] = (tab['get'].target, 0, 1)
-    if len(acc) < 5:
-        raise AnalysisError('expected the five keyed accessors (get, index read/write/compound write/del), found %s' % sorted(acc))
+    if len(acc) < 3:
+        raise AnalysisError('expected the keyed accessors (get, index read/write/compound write/del), found only %s' % sorted(acc))
     per: Dict[str, Dict[str, Set[Any]]] = {}
     for name, (q, ci, ki) in sorted(acc.items()):
         fi = F.func(q)
@@ -149,6 +149,8 @@ def check(chk: Check) -> None:
         chk.require(ok, R3, key, where, det)
     # no mutation before the guarded read in the pure readers
     for name in ('get', '__getitem__'):
+        if name not in acc:
+            continue
         q = acc[name][0]
         fi = F.func(q)
         from .c13 import mutation_events
